@@ -218,6 +218,48 @@ def _subst_class_attrs(tree, cls, cc):
     return n
 
 
+def inline_namedtuples(tree, modname, ref):
+    """a NamedTuple class the reference does not know: its constructor
+    calls are the tuples they stand for"""
+    known = set(ref.get("module_names", {}).get(modname, []))
+    classes = {}
+    for st in tree.body:
+        if isinstance(st, ast.ClassDef) and st.name not in known and any(
+                (ast.unparse(b).split(".")[-1] == "NamedTuple")
+                for b in st.bases):
+            fields = [x.target.id for x in st.body if isinstance(
+                x, ast.AnnAssign) and isinstance(x.target, ast.Name)]
+            if fields and not any(isinstance(x, FUNC) for x in st.body):
+                classes[st.name] = fields
+    if not classes:
+        return 0
+    n = 0
+
+    class T(ast.NodeTransformer):
+        def visit_Call(self, node):
+            nonlocal n
+            self.generic_visit(node)
+            if isinstance(node.func, ast.Name) and node.func.id in classes \
+                    and not any(isinstance(a, ast.Starred)
+                                for a in node.args):
+                fields = classes[node.func.id]
+                vals = dict(zip(fields, node.args))
+                for k in node.keywords:
+                    if k.arg is None or k.arg not in fields or k.arg in vals:
+                        return node
+                    vals[k.arg] = k.value
+                if len(vals) != len(fields):
+                    return node
+                n += 1
+                return ast.copy_location(ast.Tuple(
+                    elts=[vals[f] for f in fields], ctx=ast.Load()), node)
+            return node
+    T().visit(tree)
+    if n:
+        ast.fix_missing_locations(tree)
+    return n
+
+
 # ----------------------------------------------------------------- helpers
 def _body_no_doc(func):
     b = func.body
